@@ -193,6 +193,16 @@ def _surface_case(desc, ctx, rng):
     import mouette as M
     z = surfaces.make(rng.randrange(2 ** 31), max_size=desc["max_size"])
     V0, F0, a0 = z["V"], z["F"], z["topo"]
+    quads = [f for f in F0 if len(f) == 4]
+    if quads and desc["seed"] % 3 == 1:
+        # a dart: one corner of a quad is pushed past the opposite diagonal, so that the quad has a reflex corner there (listed first or third)
+        rq = random.Random(desc["seed"] ^ 0xda47)
+        f = rq.choice(quads)
+        k = rq.choice([0, 2])
+        V0 = np.array(V0, float)
+        mid = (V0[f[(k + 1) % 4]] + V0[f[(k + 3) % 4]]) / 2
+        V0[f[k]] = mid + 0.4 * (V0[f[(k + 2) % 4]] - mid)
+        ctx.cls("surface:quad_with_reflex_corner")
     ops = []
     for _ in range(desc["nops"]):
         name = rng.choice(SURF_OPS)
@@ -314,6 +324,11 @@ def _input_object_surface(ctx, m, snap0, snapr, site):
 def _volume_case(desc, ctx, rng):
     z = volumes.make(rng.randrange(2 ** 31), max_size=2)
     V0, C0 = z["V"], z["C"]
+    unit = [1.0, 1.0, 1e-5, 1.0, 1e-7, 1e4][desc["seed"] % 6]
+    if unit != 1.0:
+        # the same mesh in very small / large units: counts and incidences have no unit, positions are judged relative to the mesh size
+        V0 = np.asarray(V0, float) * unit
+        ctx.cls("units:%g" % unit)
     ops = []
     for _ in range(desc["nops"]):
         ops.append([rng.choice(["cell_fan", "face_center"]), rng.randrange(10 ** 6)])
